@@ -103,6 +103,10 @@ class C02(RunProp):
                     av = dict((k, v) for k, v in o["values"])
                     for k, v in ref["values"]:
                         if k in av and av[k] != v:
+                            writers = {c[0] for c in o["calls"]} & {f"{gi}:{n['name']}" for gi, g in enumerate(case["program"]) for n in g["nodes"] if k in n.get("dataOuts", [])}
+                            if len(writers) >= 2:
+                                return (f"{name}: partial value {k!r} = {av[k]!r} differs from sync's {v!r} — two producers of {k!r} ran in the failing step "
+                                        "under the async runner, the sync runner stopped between them")
                             return f"{name}: partial value {k!r} = {av[k]!r} differs from sync's {v!r}"
                         if k not in av:
                             return f"{name}: sync partial value {k!r} missing from the async result"
@@ -142,6 +146,8 @@ class C02(RunProp):
         return {"peak_parked": obs["peak"], "status": obs["runs"]["sync"]["status"], "runs": len(obs["runs"]), "perm": "sync:perm" in obs["runs"]}
 
     def signature(self, case: dict, obs: Any, why: str) -> str:
+        if "ran in the failing step under the async runner, the sync runner stopped between them" in why:
+            return "site:failing-step/duplicate-producers"       # one mechanism (known finding C02-F2), whatever the program
         return "case:" + canonical_hash({"program": case["program"], "values": case["values"], "cfg": case["cfg"]})
 
     def sample(self, case: dict, obs: Any) -> Any:
